@@ -881,6 +881,169 @@ def constants_item(item):
     return res
 
 
+class _FakeH5:
+    """in-memory stand-in for the h5py calls of Grid.writeH5Dataset / loadFromFile / setupFromFile: one dataset with
+    attributes per file name, shared by all simulated ranks (what a parallel HDF5 file is to its writers)"""
+
+    def __init__(self):
+        self.files = {}
+        fake = self
+
+        class Attrs(dict):
+            def create(self, name, data, shape=None, dtype=None):
+                self[name] = np.array(data)
+
+        class DSet:
+            def __init__(self, shape, dtype):
+                self.data = np.zeros(tuple(int(x) for x in shape), dtype=dtype)
+                self.attrs = Attrs()
+
+            def __setitem__(self, key, val):
+                self.data[key] = val
+
+            def __getitem__(self, key):
+                return self.data[key]
+
+        class File:
+            def __init__(self, name, mode='r', **kw):
+                self.name, self.mode = name, mode
+                if mode == 'w':
+                    fake.files.setdefault(name, {})
+                elif name not in fake.files:
+                    raise OSError('no such file %s' % name)
+
+            def create_dataset(self, name, shape, dtype=None):
+                d = fake.files[self.name]
+                if name not in d:               # every rank opens the same parallel file
+                    d[name] = DSet(shape, dtype)
+                return d[name]
+
+            def __getitem__(self, name):
+                return fake.files[self.name][name.lstrip('/')]
+
+            def close(self):
+                pass
+        self.File = File
+        self.h5t = types.SimpleNamespace(STD_I32BE='i4')
+
+    def glob(self, pattern):
+        pre = pattern.rstrip('*')
+        return [n for n in self.files if n.startswith(pre)]
+
+
+def h5_item(item):
+    """concrete part: the real Grid.writeH5Dataset on P simulated ranks, then the real loadFromFile on P2 ranks, on an in-memory
+    HDF5 stand-in: the recorded 'Layout' attribute is the ordering of the layout written, the dataset is the global field in
+    that ordering, and reloading (into grids distributed differently) reproduces the field"""
+    nd, layouts, lay, P, P2 = item
+    res = H.worker_result()
+    H.install_fake_mpi()
+    real = H.repo_import('pygyro.model.layout')
+    gm = H.load_copy('pygyro.model.grid', 'pygyro.model._h5_grid_%d_%s_%s_%s' % (nd, lay, 'x'.join(map(str, P)), 'x'.join(map(str, P2))))
+    fake = _FakeH5()
+    gm.h5py = fake
+    gm.glob = fake.glob
+    gm.os = types.SimpleNamespace(path=types.SimpleNamespace(exists=lambda f: f in fake.files))
+    shape = (5, 4, 6, 3)[:nd]
+    eta = [np.arange(n, dtype=float) for n in shape]
+    G = np.arange(int(np.prod(shape)), dtype=float).reshape(shape) * 0.5 + 1.0
+    order = list(layouts[lay])
+    res['obligations'] += 1
+    probs = []
+
+    def block(L, field):
+        sl = tuple(slice(int(a), int(b)) for a, b in zip(L.starts, L.ends))
+        return np.transpose(field, L.dims_order)[sl]
+    try:
+        def writer(comm):
+            h = real.getLayoutHandler(comm, dict(layouts), list(P), eta)
+            g = gm.Grid(eta, [None] * nd, h, lay, comm=comm)
+            g.getAllData()[...] = block(h.getLayout(lay), G)
+            g.writeH5Dataset('folder', 4)
+            g.getAllData()[...] = block(h.getLayout(lay), G * 3)
+            g.writeH5Dataset('folder', 12)
+            return True
+        simmpi.World(int(np.prod(P))).run(writer)
+        for t, fld in ((4, G), (12, G * 3)):
+            d = fake.files['folder/grid_%06d.h5' % t]['dset']
+            if list(np.array(d.attrs['Layout'])) != order:
+                probs.append("the 'Layout' attribute of the checkpoint is %s, the layout written is %s %s" % (list(np.array(d.attrs['Layout'])), lay, order))
+            if d.data.shape != tuple(shape[k] for k in order) or not np.array_equal(d.data, np.transpose(fld, order)):
+                probs.append('the dataset of the checkpoint at t=%d is not the global field in the ordering %s' % (t, order))
+
+        def reader(comm):
+            h = real.getLayoutHandler(comm, dict(layouts), list(P2), eta)
+            g = gm.Grid(eta, [None] * nd, h, lay, comm=comm)
+            out = []
+            g.loadFromFile('folder')
+            out.append(np.array_equal(g.getAllData(), block(h.getLayout(lay), G * 3)))
+            g.loadFromFile('folder', 4)
+            out.append(np.array_equal(g.getAllData(), block(h.getLayout(lay), G)))
+            return out
+        for rk, (a, b) in enumerate(simmpi.World(int(np.prod(P2))).run(reader)):
+            if not a:
+                probs.append('rank %d of %s: loading the latest checkpoint does not reproduce the field written by %s processes' % (rk, list(P2), list(P)))
+            if not b:
+                probs.append('rank %d of %s: loading the requested checkpoint (t=4) does not reproduce the field' % (rk, list(P2)))
+    except Exception as e:
+        probs.append('%s: %s' % (type(e).__name__, str(e)[:200]))
+    if probs:
+        res['violations'].append(('checkpoint:roundtrip', '%s (layout %s, written on %s, read on %s)' % (probs[0], lay, list(P), list(P2)), dict(kind='h5', item=str(item), problems=probs[:4])))
+    else:
+        res['discharged'] += 1
+        res['nontrivial'].append('h5|%s|%s|%s' % (lay, P, P2))
+    return res
+
+
+def restart_domain_item(item):
+    """concrete part: the coordinate grids and knots a restart (setupFromFile) builds equal those of the fresh set-up
+    (setupCylindricalGrid) for the same constants, with a domain that is asymmetric in every direction"""
+    res = H.worker_result()
+    H.install_fake_mpi()
+    setups = H.load_copy('pygyro.initialisation.setups', 'pygyro.initialisation._restart_domain_setups')
+    cmod = H.repo_import('pygyro.initialisation.constants')
+    rec = []
+
+    class FakeGrid:
+        def __init__(self, eta_grids, bsplines, remapper, layout, comm=None, **k):
+            rec.append(([np.array(e, dtype=float) for e in eta_grids], [np.array(b.knots, dtype=float) for b in bsplines]))
+
+        def setLayout(self, *a):
+            pass
+    setups.Grid = FakeGrid
+    setups.getLayoutHandler = lambda *a, **k: types.SimpleNamespace()
+    for nm in ('initialise_flux_surface', 'initialise_poloidal', 'initialise_v_parallel'):
+        setattr(setups, nm, lambda *a, **k: None)
+    setups.glob = lambda pattern: []
+
+    def consts(*a):
+        c = cmod.Constants()
+        c.npts = [8, 8, 8, 8]
+        c.rMin, c.rMax, c.zMin, c.zMax, c.vMin, c.vMax = 0.7, 9.3, 2.5, 31.0, -3.0, 7.0
+        return c
+    setups.get_constants = consts
+    setups.Constants = consts
+
+    class Comm:
+        def Get_size(self): return 1
+        def Get_rank(self): return 0
+    res['obligations'] += 1
+    try:
+        setups.setupCylindricalGrid('v_parallel', constantFile='x', comm=Comm())
+        setups.setupFromFile('nowhere', layout='v_parallel', comm=Comm())
+        (e1, k1), (e2, k2) = rec[0], rec[1]
+        bad = [d for d in range(4) if e1[d].shape != e2[d].shape or not np.array_equal(e1[d], e2[d]) or k1[d].shape != k2[d].shape or not np.array_equal(k1[d], k2[d])]
+        if bad:
+            res['violations'].append(('restart:domain', 'a restart builds other coordinates / knots than the fresh set-up in direction(s) %s for the domain r [0.7,9.3], z [2.5,31], v [-3,7] (e.g. first points %s vs %s)' % (
+                bad, e1[bad[0]][:2], e2[bad[0]][:2]), dict(kind='restart_domain', directions=bad)))
+        else:
+            res['discharged'] += 1
+            res['nontrivial'].append('restart_domain')
+    except Exception as e:
+        res['violations'].append(('restart:domain', '%s: %s' % (type(e).__name__, str(e)[:200]), dict(kind='restart_domain')))
+    return res
+
+
 def printer_item(item):
     """the saved parameter file: str(constants) (the text setupSave writes) read back by get_constants reproduces every public
     constant.  Several constants are symbolic reals (zero included), so a printer that filters or reformats by value is
@@ -1126,6 +1289,20 @@ def main():
             continue
         run.merge(r)
     run.merge(printer_item((('n', 'm', 'eps', 'kN0', 'B0', 'iotaVal', 'CN0'), None)))
+    lay4 = {'flux_surface': [0, 3, 1, 2], 'v_parallel': [0, 2, 1, 3], 'poloidal': [3, 2, 1, 0]}
+    lay3 = {'v_parallel_2d': [0, 2, 1], 'mode_solve': [1, 2, 0]}
+    hitems = []
+    for lay_ in lay4:
+        hitems.append((4, lay4, lay_, (2, 2), (1, 3)))
+        if not quick:
+            hitems.append((4, lay4, lay_, (1, 1), (3, 2)))
+            hitems.append((4, lay4, lay_, (3, 1), (2, 2)))
+    for lay_ in lay3:
+        hitems.append((3, lay3, lay_, (2, 1), (1, 2)))
+    for it_ in hitems:
+        run.merge(h5_item(it_))
+    run.merge(restart_domain_item(None))
+    run.sections['checkpoint_roundtrip_items'] = len(hitems)
     hit = caught.get(CONST_CANARY[0], False)
     run.canaries.append(dict(name=CONST_CANARY[0], detected=hit))
     if not hit:
@@ -1135,7 +1312,7 @@ def main():
                               'fullSimulation: every pygyro class, argparse, time.time (arbitrary non-decreasing clock), os.path/os.mkdir, open/print replaced by recording stubs']
     run.bounds = dict(tiling='all extents, 1..%d writer and reader processes per dimension' % P, selection='2 (thorough 3) checkpoints, times < 10^%d' % MAXD,
                       driver='saveStep <= %d, <= %d iterations, start time <= 8, dt = 2, both fresh and restarted runs, ranks 0 and 1' % (SMAX, K))
-    run.outside = ['bit-exact HDF5 I/O and the h5py layer (C library, not MPI-enabled in this image)', 'the text-level round trip of float literals through the saved parameter file (symbolic values travel as identifiers); an explicit rp entry (rp is derived from rMin/rMax by the setters)',
+    run.outside = ['the h5py layer itself (C library, not MPI-enabled in this image; an in-memory stand-in takes its calls: create_dataset, slice assignment / read, attrs)', 'the text-level round trip of float literals through the saved parameter file (symbolic values travel as identifiers); an explicit rp entry (rp is derived from rMin/rMax by the setters)',
                    'non-integer time steps (file names such as grid_0002.5.h5)', 'state equality of split runs beyond control flow: follows from identical per-iteration operator sequences, '
                    'resumption at the checkpointed time and bit-exact I/O (the latter not decided)']
     run.assumptions = ['checkpoint names are produced by Grid.writeH5Dataset\'s format expression', 'dt = 2 (integer) in the driver runs']
